@@ -685,6 +685,10 @@ class Evaluator:
             a, b = b, a        # one spelling for `x == y` and `y == x`
         if base in ("Eq", "Ne") and a[0] == "int" and b[0] != "int":
             a, b = b, a
+        if base in ("Eq", "Ne") and b[0] == "int" and a[0] == "app" and a[1] == "Sub" and a[2][1][0] == "int" and a[2][0][0] == "len":
+            # len(s) - c1 == c2  <=>  len(s) == c1 + c2   (the subtraction itself is checked where it is made)
+            b = mk_int(a[2][1][1] + b[1], b[2])
+            a = a[2][0]
         return ("app", base, (a, b))
 
     def cast(self, st, kind, x, ty):
@@ -1353,7 +1357,18 @@ class Evaluator:
         if k == "deq":
             if val == 1:
                 return st.constrain_in(t[1], [t[2]])
-            return st.constrain_out(t[1], [t[2]])
+            if not st.constrain_out(t[1], [t[2]]):
+                return False
+            d = st.cons.get(t[1])
+            if d is not None and d[0] == "out":
+                dv = self.domain_values(st, t[1])
+                if dv is not None:
+                    left = [x for x in dv if x not in d[1]]
+                    if not left:
+                        return False            # every variant of the enum has been excluded
+                    if len(left) == 1:
+                        st.cons[t[1]] = ("in", frozenset(left))
+            return True
         if k == "app" and t[1] == "Not":
             return self.assume(st, t[2][0], 1 - val)
         if k == "app" and t[1] in CMP_TRUE and len(t[2]) == 2:
@@ -1787,6 +1802,12 @@ def first_generic_arg(tys):
 
 
 def len_term(v):
+    if v[0] == "app" and v[1] == "subslice" and v[2][1][0] == "int":
+        base, lo, hi = v[2]
+        if hi[0] == "int":
+            return mk_int(max(hi[1] - lo[1], 0), "usize")
+        if hi == len_term(base):
+            return ("app", "Sub", (hi, lo)) if lo[1] else hi       # s[lo..]: len(s) - lo
     if v[0] == "bytes":
         return mk_int(len(v[1]), "usize")
     if v[0] == "array":
